@@ -1,9 +1,11 @@
 /-
   C35 — witnesses of the finding classes and non-vacuity examples.
 
-  * `witness_leap_panic` (class `nopanic:D_leap_offset`): with the instant chrono really returns for
-    "1900-01-01 23:59:60" in America/St_Johns (UTC offset −3:30:52: second field :51 after the shift,
-    nanosecond field 10⁹), `datetime_to_utc` panics. Replayed on the implementation by `o.c35.nopanic`.
+  * `fixed_leap_offset…` (FIXED finding `nopanic:D_leap_offset`, repaired by 83f4a4b): with the instant
+    chrono really returns for "1900-01-01 23:59:60" in America/St_Johns (UTC offset −3:30:52: second
+    field :51 after the shift, nanosecond field 10⁹) `datetime_to_utc` used to panic
+    (`Utc.timestamp_opt` refuses the pair: `leap_instant_refused`); it now returns the pair, observed as
+    `ts:-2208889748000000000`. Replayed on the implementation by corpus/C35/fixed.case.
   * `witness_literal_percent` (class `rt:D_literal_percent`): `timestamp|%F %T %%z` is classified
     zone-explicit — the configured zone is dropped — although `%%z` is a literal `%z`, not a specifier.
   * `witness_zone_abbrev` (class `rt:D_zone_abbrev`): `timestamp|%F %T %Z` likewise, although chrono
@@ -15,7 +17,7 @@ import VrlProofs.Props.C35
 namespace C35
 open Cnv
 
-/-! ### panic -/
+/-! ### fixed finding `nopanic:D_leap_offset` (83f4a4b: `datetime_to_utc` = `with_timezone(&Utc)`) -/
 
 /-- chrono as observed on the implementation for the text "1900-01-01 23:59:60" / format "%F %T":
     parsing succeeds; resolving in America/St_Johns gives (−2208889749 s, 10⁹ ns). -/
@@ -33,24 +35,52 @@ def ftNone : FloatText where
 
 theorem leap_instant_in_class : D_leap_offset (-2208889749, 1000000000) = true := by decide
 
-/-- the full statement "`convert` never panics" is false -/
-theorem witness_leap_panic :
-    ∃ (ch : Chrono Unit) (conv : Conversion) (s : List Nat), convert ftNone ch conv s = .panic :=
-  ⟨chronoLeap, .timestampFmt ['%', 'F', ' ', '%', 'T'] (.named "America/St_Johns"), [], by decide⟩
+/-- what failed: `Utc.timestamp_opt(-2208889749, 10⁹)` is not `Single` (second :51 with a leap-second
+    nanosecond field), and the old `datetime_to_utc` `.expect`ed it -/
+theorem leap_instant_refused : timestampOptOk (-2208889749) 1000000000 = false := by decide
 
-/-- and the automatic conversion panics on the same instant (first zone-less format) -/
-theorem witness_leap_panic_auto :
-    convert ftNone chronoLeap (.timestamp (.named "America/St_Johns")) [] = .panic := by decide
+/-- the old witness input (`witness_leap_panic`: `convert … = .panic`) now converts: the reply of the
+    implementation on the replay is `ok ts:-2208889748000000000` -/
+theorem fixed_leap_offset :
+    convert ftNone chronoLeap (.timestampFmt ['%', 'F', ' ', '%', 'T'] (.named "America/St_Johns")) [] =
+      .ok (.ts (-2208889748000000000)) := by decide
 
-/-- the hypothesis of `convert_no_panic_partial` fails exactly there -/
-theorem chronoLeap_not_safe : ¬ ChronoSafe chronoLeap := by
-  intro h
-  have := h.2.1 "America/St_Johns" () (-2208889749, 1000000000) rfl
-  revert this
-  simp only [validInst]
-  decide
+/-- and so does the automatic conversion on the same instant (first zone-less format) -/
+theorem fixed_leap_offset_auto :
+    convert ftNone chronoLeap (.timestamp (.named "America/St_Johns")) [] =
+      .ok (.ts (-2208889748000000000)) := by decide
 
-/-- non-vacuity of `convert_no_panic_partial`: a chrono that only returns ordinary instants -/
+/-- the whole class: every instant in `D_leap_offset` is refused by `Utc.timestamp_opt` (so the old
+    code panicked on it), and `datetime_to_utc` now returns it unchanged -/
+theorem fixed_leap_offset_class (i : Inst) (h : D_leap_offset i = true) :
+    timestampOptOk i.1 i.2 = false ∧ datetimeToUtc i = .ok i := by
+  refine ⟨?_, rfl⟩
+  simp only [D_leap_offset, Bool.and_eq_true, decide_eq_true_eq, Bool.not_eq_true'] at h
+  have h1 : ¬ (i.2 < 1000000000) := by omega
+  simp [timestampOptOk, h1, h.2]
+
+/-- the value it returns is the nanosecond count of the following second; its RFC 3339 text
+    ("1900-01-02T03:30:52Z" on the implementation) read back by chrono as (−2208889748, 0) converts to
+    the same value: non-vacuity of `convert_auto_rfc3339_leap` -/
+def chronoRfcNext : Chrono Unit where
+  parse := fun _ _ => none
+  resolveLocal := fun _ => none
+  resolveNamed := fun _ _ => none
+  parseFromStr := fun _ _ => none
+  parseRfc3339 := fun _ => some (-2208889749 + 1, 0)
+  parseRfc2822 := fun _ => none
+
+theorem fixed_leap_offset_roundtrip :
+    convert ftNone chronoRfcNext (.timestamp .local) [51, 58, 51] = .ok (.ts (-2208889748000000000)) ∧
+    convert ftNone chronoLeap (.timestampFmt ['%', 'F', ' ', '%', 'T'] (.named "America/St_Johns")) [] =
+      convert ftNone chronoRfcNext (.timestamp .local) [51, 58, 51] := by
+  have h := convert_auto_rfc3339_leap ftNone chronoRfcNext .local [51, 58, 51] (-2208889749) 0
+    (by intro f _; rfl) (by decide) rfl
+  have e : instNs (-2208889749, 1000000000 + 0) = -2208889748000000000 := by decide
+  rw [e] at h
+  exact ⟨h, by rw [h]; exact fixed_leap_offset⟩
+
+/-- an ordinary chrono, for comparison: nothing changed outside the class -/
 def chronoPlain : Chrono Unit where
   parse := fun _ _ => some ()
   resolveLocal := fun _ => some (981173106, 0)
@@ -59,13 +89,9 @@ def chronoPlain : Chrono Unit where
   parseRfc3339 := fun _ => some (981173106, 0)
   parseRfc2822 := fun _ => none
 
-example : ChronoSafe chronoPlain := by
-  refine ⟨?_, ?_, ?_, ?_, ?_⟩
-  · intro p i h; simp only [chronoPlain, Option.some.injEq] at h; subst h; simp only [validInst]; decide
-  · intro n p i h; simp only [chronoPlain, Option.some.injEq] at h; subst h; simp only [validInst]; decide
-  · intro s f i h; simp only [chronoPlain, Option.some.injEq] at h; subst h; simp only [validInst]; decide
-  · intro s i h; simp only [chronoPlain, Option.some.injEq] at h; subst h; simp only [validInst]; decide
-  · intro s i h; simp [chronoPlain] at h
+example : convert ftNone chronoPlain (.timestampFmt ['%', 'F'] (.named "Europe/Paris")) [] =
+    .ok (.ts 981169506500000000) := by decide
+example : noPanic (convert ftNone chronoLeap (.timestamp .local) []) = true := by decide
 
 /-! ### `format_has_zone` false positives -/
 
@@ -126,8 +152,6 @@ def chronoRfc : Chrono Unit where
 
 example : convert ftNone chronoRfc (.timestamp .local) [50, 58, 51] = .ok (.ts 981173106000000000) :=
   convert_auto_rfc3339 ftNone chronoRfc .local [50, 58, 51] (981173106, 0) (by intro f _; rfl) (by decide) rfl
-    (by simp only [validInst]; decide)
-
 /-- integers: edge values and malformed texts -/
 example : parseI64 (showI64 i64Min) = some i64Min := parseI64_showI64 _ (by decide) (by decide)
 example : parseI64 (showI64 i64Max) = some i64Max := parseI64_showI64 _ (by decide) (by decide)
